@@ -235,7 +235,7 @@ package compile
 //@   requires c != nil && base != nil && n != nil
 //@   modifies *
 //@   ensures result == old(baseOf(base)) || (isfresh(result) && forall(k, 0, len(result.Lbs), forallint(v, implies(result.Lbs[k].Start <= v && v <= result.Lbs[k].End, old(inBase(baseOf(base), v, len(baseOf(base).Lbs)))))))
-//@   loop 0 invariant len(lbs) == loopidx + 1 && isfresh(lbs)
+//@   loop 0 invariant len(lbs) == loopidx + 1 && isfresh(lbs) && sref(lbs) != sref(baseLen.Lbs)
 //@   loop 0 invariant baseLen.Lbs == old(baseLen.Lbs) && forall(i, 0, len(baseLen.Lbs), baseLen.Lbs[i] == old(baseLen.Lbs[i]))
 //@   loop 0 invariant forall(k, 0, len(lbs), forallint(v, implies(lbs[k].Start <= v && v <= lbs[k].End, inBase(baseLen, v, len(baseLen.Lbs)))))
 //@   loop 1 invariant implies(loopidx >= 0, lb.Start >= rangeMin && rangeMax == baseLen.Lbs[loopidx].End && forallint(v, implies(rangeMin <= v && v <= rangeMax, inBase(baseLen, v, loopidx+1))))
@@ -386,10 +386,19 @@ package compile
 //@ define ndevs(a) = node_nchildren_of(a, parse.NodeDeviate)
 //@ define devOK(a, hi) = forall(j, 0, hi, implies(node_type(devs(a, j)) == parse.NodeDeviateNotSupported, ndevs(a) == 1))
 //@ define devn(m, i) = node_child_of(m, parse.NodeDeviation, i)
+// Reference status along refine / augment / deviation paths (C14: "a definition may not reference a more obsolete one
+// in its own module"): the node a path leads to - the definition that is referenced - is handed to the checker too,
+// not only the nodes stepped through.
 //@ func (*Compiler).getDataDescendant
-//@   assumed
+//@   requires c != nil && srcNode != nil && checker != nil
 //@   modifies *
+//@   decreases len(path)
 //@   ensures ghost("devChecked") == old(ghost("devChecked")) && ghost("devApplied") == old(ghost("devApplied"))
+//@   ensures implies(result != nil, called(checker, result))
+//@ func (*Compiler).getNext
+//@   assumed
+//@   requires c != nil && srcNode != nil
+//@   nopanic
 //@ func (*Compiler).addDeviation
 //@   assumed
 //@   modifies *
